@@ -738,8 +738,9 @@ def json_path():
                 names.add(_dotted(kw[0].value) if kw else None)
         return names
 
-    enc = cls_kw(pu.save_parameters, "json.dump")
-    dec = cls_kw(tt.main, "json.load")
+    # searched in the whole defining modules, so that moving the calls into a helper of the same module is not an alarm
+    enc = cls_kw(pu, "json.dump") | cls_kw(pu, "json.dumps")
+    dec = cls_kw(tt, "json.load") | cls_kw(tt, "json.loads")
     # main() parses the configuration with a plain json.load and the checkpoint with a decoder
     dec_ck = {d for d in dec if d is not None}
     if len(enc) != 1 or None in enc or len(dec_ck) != 1:
@@ -748,7 +749,7 @@ def json_path():
     decoder = getattr(tt, next(iter(dec_ck)))
     # shape of the restore path in main(), structurally (the names of main()'s locals are not part of it):
     #   update_parameters(<config>, <tensors by id>)   and   <obj>.load_state_dict(<others by id>[<obj>.id])
-    t_main = ast.parse(textwrap.dedent(inspect.getsource(tt.main)))
+    t_main = ast.parse(textwrap.dedent(inspect.getsource(tt)))
     has_update = any(isinstance(n, ast.Call) and _dotted(n.func) == "update_parameters" and len(n.args) == 2 for n in ast.walk(t_main))
     has_load = any(isinstance(n, ast.Call) and isinstance(n.func, ast.Attribute) and n.func.attr == "load_state_dict" and len(n.args) == 1
                    and isinstance(n.args[0], ast.Subscript) and isinstance(n.args[0].slice, ast.Attribute) and n.args[0].slice.attr == "id"
